@@ -11,12 +11,14 @@ CHECKS = {
                       "receiver resolved to a struct field; a may-held guard dataflow plus transitive acquisition summaries give "
                       "the complete lock-order graph. The verdict (no exclusive re-entrancy, no conflicting order cycle, no "
                       "blocking guard across await, every recursive SCC guarded) holds for every schedule and key placement "
-                      "because shards are abstracted away. Loop termination and starvation are not decided.",
+                      "because shards are abstracted away. Hand-written loops matching a progress idiom (parent() walk, "
+                      "peek/next scan, exit-tested counter, pop-driven worklist) make their progress step on every path round "
+                      "the loop (must-pass-through on the CFG). Loops matching no idiom and starvation are not decided.",
         "design_ref": "DESIGN.md section 4 R1, section 5 C12",
         "level_note": "Trusted: rustc MIR and callee resolution, reading of dashmap 6.1.0's reader-preferring RawRwLock "
-                      "(version re-checked each run), the method->mode table, the rule layer. Undecided: while/loop fixpoints, "
-                      "fairness, locks inside dependencies.",
-        "technique": "MIR may-held guard dataflow + call-graph acquisition summaries + lock-order cycle search; SCC recursion-guard classification",
+                      "(version re-checked each run), the method->mode table, the rule layer. Undecided: the import-scan "
+                      "fixpoint loop, fairness, locks inside dependencies.",
+        "technique": "MIR may-held guard dataflow + call-graph acquisition summaries + lock-order cycle search; SCC recursion-guard classification; natural-loop progress (must-pass-through) analysis",
     },
 }
 
@@ -103,11 +105,12 @@ def _c(level, ref, note, tech):
 CHECKS.update({
     "C01": _c("Every selection site of the resolver cascade (found by role; sites = first/find/max_by_key calls and element-"
               "carrying early-exit loops over the per-name definition vector, extracted from MIR) must test visibility on the "
-              "selected element. The name-only imported-name stage of the pinned tree is a recorded known finding (replay). "
-              "Coincidence of the cascade with pytest for every layout is not decided.",
-              "DESIGN.md section 4 R5a, section 5 C01",
+              "selected element; the same-file stage must take the last definition; the skip filter of import extraction must "
+              "test the module string that is recorded (reaching definitions agree). The name-only imported-name stage of the "
+              "pinned tree is a recorded known finding (replay). Coincidence of the cascade with pytest for every layout is not decided.",
+              "DESIGN.md section 4 R5a/R5e/R10j, section 5 C01",
               "Trusted: selection-site extraction (sel.py), closure field-touch sets. Undecided: cascade order, conftest walk, columns.",
-              "selection-site extraction from MIR + predicate field analysis"),
+              "selection-site extraction from MIR + predicate field analysis; reaching-definitions agreement between filter and record"),
     "C02": _c("The exclusion filter is invoked at every selection site of the cascade; every caller that resolves usages pairs "
               "the excluding and non-excluding resolver under a `definition.name == usage name` test (memo lookups of "
               "non-excluding resolutions count as non-excluding calls); the excluding filter compares whole records.",
@@ -155,12 +158,13 @@ CHECKS.update({
 CHECKS.update({
     "C11": _c("All 17 `str` range-indexing sites are enumerated from MIR; an abstract evaluation of each index's provenance proves it "
               "a char boundary of the sliced string (find / char_indices / len / guarded constants / suffix arithmetic) or the "
-              "site is in the reviewed table; u32 arithmetic on request positions and unwrap/expect sites are enumerated. Seven "
-              "sites that could panic were repaired (four fix: commits).",
+              "site is in the reviewed table; u32 arithmetic on request positions and unwrap/expect sites are enumerated; "
+              "hand-written loops matching a progress idiom make their progress step on every path (the cycle search expands "
+              "each node once). Seven sites that could panic were repaired (four fix: commits).",
               "DESIGN.md section 4 R7, section 5 C11",
               "Trusted: the boundary domain's soundness as argued in DESIGN; reviewed entries. Undecided: slice bounds, usize "
-              "arithmetic, range order, panics in dependencies, stack exhaustion, wedging, scan isolation.",
-              "abstract interpretation of index provenance (char-boundary domain) over MIR def-use chains"),
+              "arithmetic, range order, panics in dependencies, stack exhaustion, loops matching no idiom, scan isolation.",
+              "abstract interpretation of index provenance (char-boundary domain) over MIR def-use chains; natural-loop progress (must-pass-through) analysis"),
     "C13": _c("Ignore rules must inspect only the path relative to the walk root, the directory filter must be depth-aware, the two "
               "file-name predicates must agree, the parallel phase must not short-circuit. The relocation defect of the pinned "
               "tree was repaired (fix: commit).",
@@ -169,8 +173,9 @@ CHECKS.update({
               "provenance check (strip_prefix of the walk root) + sibling literal-table agreement + who-may-call on rayon consumers"),
     "C14": _c("Constructors classify alike, plugin marks precede the analysis they affect or enqueue a re-analysis, both import "
               "walkers follow both edge kinds, no stale snapshot of the plugin map decides propagation, import recursion is "
-              "guarded by a visited set.",
-              "DESIGN.md section 4 R10c-g/R1d, section 5 C14",
+              "guarded by a visited set, the import memo does not depend on the visited context, the import skip filter tests "
+              "the recorded module string.",
+              "DESIGN.md section 4 R10c-j/R1d/R3d-iii, section 5 C14",
               "Trusted: backward slices of the classification flags; dominators. Undecided: reachability closure, venv layouts, .pth parsing.",
               "sibling agreement of backward slices + dominance ordering + call-graph reachability"),
     "C15": _c("Unit discipline only: byte columns must not reach Position.character and the UTF-16 cursor column must not be compared "
